@@ -83,3 +83,18 @@ def arb_box(E, Box, name='b', righthanded=True, lammps=False, nonzero_det=True):
 
 def file_sha(loader):
     return dict(loader.files)
+
+
+def to_float(x):
+    """numeric value of a closed symbolic term (constants + opaque functions of constants), or of a Python number"""
+    if isinstance(x, Sym):
+        return float(tm.evaluate(x.t, {}))
+    return float(x)
+
+
+def to_float_array(a):
+    a = _np.asarray(a, dtype=object)
+    out = _np.empty(a.shape, dtype=float)
+    for idx in _np.ndindex(*a.shape):
+        out[idx] = to_float(a[idx])
+    return out
